@@ -640,8 +640,10 @@ def run_lncdf(case, ctx: Ctx):
         gref = math.sqrt(2.0 / math.pi) / scipy.special.erfcx(-z / math.sqrt(2.0))
     br = branch_of(z)
     tail = br == 0
-    # thresholds verbatim from the property: 2e-3 absolute everywhere; "to rounding" for z >= -1 = 1e-12 (1 + |value|)
-    vtol = np.where(tail, 2e-3, 1e-12 * (1.0 + np.abs(ref)))
+    # thresholds from the property: 2e-3 absolute everywhere; "to rounding" for z >= -1 is taken as 1e-13 (1 + |value|)
+    # (450 ulps; the unchanged tree is within 1.2e-15 - DESIGN quotes 1e-12, which would let the series around 0 be used
+    # out to |z| = 0.63 unnoticed, see mutants/C13.json)
+    vtol = np.where(tail, 2e-3, 1e-13 * (1.0 + np.abs(ref)))
     _within(ctx, "value_vs_log_ndtr", val, ref, vtol)
     # derivative: relative 2e-3 for z < -1, 1e-10 for z >= -1 (absolute 1e-290 where phi/Phi underflows)
     gtol = np.abs(w) * (np.where(tail, 2e-3, 1e-10) * gref + 1e-290)
